@@ -1,7 +1,24 @@
 import ApolloModel.Model.Proto
 import ApolloModel.Model.LineColumn
+import ApolloModel.Model.ParserEntry
+import ApolloModel.Model.TreeRanges
 open Apollo Apollo.Proto Apollo.LC
 namespace Driver
+
+/-- `c11.ranges`: rowan text ranges of the parsed document: every element `kind:start:len` (parents
+    first), then every NAME node `start:len:ok` (ok = the range slices the source to the node's
+    text), then whether every NAME node is one IDENT token, and whether the tree text is the source -/
+def showRanges (src : Parse.Str) : String :=
+  let r := Parse.parse .document none 500 src
+  match r.outcome with
+  | .tree root =>
+    let all := (Rowan.rangesOf root 0).map fun (k, s, l, _) => s!"{k}:{s}:{l}"
+    let names := (Rowan.nameRanges root 0).map fun (s, l, t) =>
+      s!"{s}:{l}:{if Rowan.sliceBytes src s l == some t then "ok" else "off"}"
+    " ".intercalate all ++ " | " ++ " ".intercalate names ++ " | " ++
+      (if Rowan.namesAreIdents root then "names=ident" else "names=other") ++ " " ++
+      (if root.text == src then "lossless" else "lossy")
+  | _ => "PANIC"
 
 def cLc (stream : String) (fs : List String) : String :=
   match stream, fs with
@@ -11,6 +28,7 @@ def cLc (stream : String) (fs : List String) : String :=
       | some (l, c) => s!"{l},{c}"
       | none => "none"
     | none => "bad-case"
+  | "c11.ranges", [src] => showRanges (decodeField src)
   | _, _ => "bad-case"
 
 end Driver
